@@ -81,6 +81,7 @@ const (
 	KPanicRuntime    // Stringer whose method panics with a runtime.Error whose text carries the (unsafe) value: names[l] out of range
 	KAnonTagged      // value of an unnamed struct type whose descriptor (%T, %#v) carries marker characters in a field tag
 	KSafeBytes       // SafeValue-marked byte-slice type (fmtBytes path: %s %q %x %X leave printValue early)
+	KAnonEmbedSafe   // unnamed struct type that gets SafeValue by embedding (promoted method; PkgPath of the type is empty)
 	KSafeNilMap      // nil value of a SafeValue-marked map type (%#v leaves printValue early)
 	KMapSortKeys     // maps whose printing order exercises fmtsort: unsigned keys around 1<<63, signed, floats incl. NaN/Inf/-0, bool, arrays, complex, uintptr
 	kindCount
@@ -191,6 +192,10 @@ type enumStrg int
 var enumNames = [...]string{"a", "b", "c"}
 
 func (e enumStrg) String() string { return enumNames[int(e)] }
+
+type safeTag struct{}
+
+func (safeTag) SafeValue() {}
 
 type safeBytesT []byte
 
@@ -437,14 +442,37 @@ func (v *Val) build(inst int) interface{} {
 		x := safeBytesT(safeStr(v.ID))
 		objCache[k] = x
 		return x
+	case KAnonEmbedSafe:
+		x := struct {
+			safeTag
+			Count int
+			Note  string
+		}{safeTag{}, safeInt(v.ID), safeStr(v.ID)}
+		switch (v.ID / 2) % 3 {
+		case 0:
+			return x
+		case 1:
+			return []struct {
+				safeTag
+				Count int
+				Note  string
+			}{x}
+		}
+		return struct {
+			F struct {
+				safeTag
+				Count int
+				Note  string
+			}
+		}{x}
 	case KSafeNilMap:
-		if v.ID%2 == 0 {
+		if (v.ID/2)%2 == 0 {
 			return safeMapT(nil)
 		}
 		return safeSliceT(nil)
 	case KAnonTagged:
 		n := unsafeInt(v.ID, inst)
-		switch v.ID % 4 {
+		switch (v.ID / 2) % 4 {
 		case 0:
 			return struct {
 				A int `note:"›"`
@@ -549,13 +577,13 @@ func (v *Val) panics() bool {
 
 // ownClass: the value (or a part of it) has a classification of its own.
 func (v *Val) ownClass() bool {
-	return v.hasKind(KSafeBytes, KSafeNilMap, KSafeStringer, KSafeStr, KSafeInt, KSafeFormatter, KSafeMessager, KPanicSafeFormatter, KSafe, KUnsafe, KRedactable, KRedactableB, KBuilder)
+	return v.hasKind(KAnonEmbedSafe, KSafeBytes, KSafeNilMap, KSafeStringer, KSafeStr, KSafeInt, KSafeFormatter, KSafeMessager, KPanicSafeFormatter, KSafe, KUnsafe, KRedactable, KRedactableB, KBuilder)
 }
 
 var leafKinds = []VKind{KNil, KBool, KInt, KInt8, KUint16, KUint64, KUintptr, KFloat, KComplex, KString, KBytes, KNamedStr, KNamedInt,
 	KSafeStr, KSafeInt, KRegInt, KRegStruct, KErr, KStringer, KPStringer, KNilStringer, KGoStringer, KFormatter, KSafeFormatter, KSafeMessager,
 	KErrFormatter, KErrStringer, KPanicStringer, KPanicError, KPanicSafeFormatter, KPtrStruct, KPtrRegStruct, KNilPtr, KIntPtr, KStrSlice, KIntArr, KMapKeyed,
-	KRedactable, KRedactableB, KChan, KFunc, KByteArr, KDuration, KBuilder, KSafeStringer, KFormatterWS, KMapIfaceKey, KMapStructKey, KNilMapStringer, KNilSliceError, KNilFuncStringer, KMapSortKeys, KRune, KPanicRuntime, KAnonTagged, KSafeBytes, KSafeNilMap}
+	KRedactable, KRedactableB, KChan, KFunc, KByteArr, KDuration, KBuilder, KSafeStringer, KFormatterWS, KMapIfaceKey, KMapStructKey, KNilMapStringer, KNilSliceError, KNilFuncStringer, KMapSortKeys, KRune, KPanicRuntime, KAnonTagged, KSafeBytes, KSafeNilMap, KAnonEmbedSafe}
 
 var redactPool = []string{"", "plain", "‹x›", "a ‹b› c", "‹a›\n‹b›", "?‹?›", "‹×›", "‹ ›x\n", "pre‹u1›mid‹u2›post", "‹q?z›"}
 
@@ -621,7 +649,7 @@ func (v *Val) String() string {
 		KPanicSafeFormatter: "panicSafeFormatter", KPtrStruct: "*struct", KPtrRegStruct: "*RegStruct", KNilPtr: "nil*struct", KIntPtr: "*int", KReflectValue: "reflect.Value",
 		KSafe: "Safe", KUnsafe: "Unsafe", KSlice: "[]any", KStrSlice: "[]string", KIntArr: "[2]int", KMap: "map", KMapKeyed: "map[MyStr]int",
 		KStruct: "struct", KRedactable: "RedactableString", KRedactableB: "RedactableBytes", KChan: "chan", KFunc: "func", KByteArr: "[3]byte",
-		KDuration: "dur", KBuilder: "*StringBuilder", KSafeStringer: "SafeStringer", KFormatterWS: "FormatterWS", KMapIfaceKey: "map[any]string", KMapStructKey: "map[struct]int", KMapSortKeys: "map[sortable]string", KRune: "rune", KPanicRuntime: "panicRuntime", KAnonTagged: "anonTagged", KSafeBytes: "safeBytes", KSafeNilMap: "safeNilMap", KNilMapStringer: "nilMapStringer", KNilSliceError: "nilSliceError", KNilFuncStringer: "nilFuncStringer"}
+		KDuration: "dur", KBuilder: "*StringBuilder", KSafeStringer: "SafeStringer", KFormatterWS: "FormatterWS", KMapIfaceKey: "map[any]string", KMapStructKey: "map[struct]int", KMapSortKeys: "map[sortable]string", KRune: "rune", KPanicRuntime: "panicRuntime", KAnonTagged: "anonTagged", KSafeBytes: "safeBytes", KSafeNilMap: "safeNilMap", KAnonEmbedSafe: "anonEmbedSafe", KNilMapStringer: "nilMapStringer", KNilSliceError: "nilSliceError", KNilFuncStringer: "nilFuncStringer"}
 	s := names[v.K]
 	if v.K == KRedactable || v.K == KRedactableB {
 		s += fmt.Sprintf("%q", v.R)
@@ -691,7 +719,7 @@ func genFormat(r *Rng, n int, allowW bool) string {
 // sortKeyMap: maps with keys of every kind internal/rfmt/fmtsort orders, values unsafe strings.
 func sortKeyMap(id, inst int) interface{} {
 	u := func(k int) string { return unsafeStr(id+k%2, inst) } // a leaf owns two ids
-	switch id % 12 {
+	switch (id / 2) % 14 { // (leaf ids are even: a leaf owns two)
 	case 9:
 		// one entry whose unsafe key is not equal to itself in one instantiation only, value declared safe
 		return map[float64]redact.SafeString{[]float64{math.NaN(), 1.5}[inst%2]: "pubval"}
@@ -706,10 +734,18 @@ func sortKeyMap(id, inst int) interface{} {
 	case 0:
 		return map[uint64]string{1: u(0), 42: u(1), math.MaxUint64: u(2), 1 << 63: u(3), 1<<63 - 1: u(4)}
 	case 1:
+		// two signed keys in the same relative order in both instantiations, but more than MaxInt64 apart in one of
+		// them (a comparison by subtraction wraps); the smaller key's value is declared safe
+		lo := []int64{math.MinInt64, -3}[inst%2]
+		hi := []int64{5, 7}[inst%2]
+		return map[int64]interface{}{lo: redact.SafeString("first"), hi: u(0)}
+	case 12:
 		return map[int8]string{-128: u(0), -1: u(1), 0: u(2), 127: u(3)}
 	case 2:
 		return map[float64]string{math.NaN(): u(0), math.Inf(-1): u(1), -1.5: u(2), 0: u(3), math.Inf(1): u(4)}
 	case 3:
+		return map[int]string{math.MinInt64: u(0), -1: u(1), math.MaxInt64: u(2), 1: u(3), math.MinInt64 + 1: u(4)}
+	case 13:
 		return map[bool]string{true: u(0), false: u(1)}
 	case 4:
 		return map[[2]int]string{{1, 2}: u(0), {1, -2}: u(1), {0, 9}: u(2)}
